@@ -433,7 +433,7 @@ def stallclose(k):
                     "procs": {"rd": {"kind": "reader"},
                               "v1": {"kind": "script", "ops": [{"m": "PublishAtLeastOnce", "tag": 1, "size": 8},
                                                                {"m": "PublishExactlyOnce", "tag": 2, "size": 8}]},
-                              "c1": {"kind": "script", "delay": 800, "ops": [{"m": "Close", "quit": "nil"}]}}}
+                              "c1": {"kind": "script", "delay": 200, "ops": [{"m": "Close", "quit": "nil"}]}}}
 
 
 EXTRA = {"C17": [utxwrap], "C11": [utxwrap], "C12": [stallclose(1), stallclose(2)]}
